@@ -281,3 +281,48 @@ class T1World(World):
         if lenbytes(n) == 3 and (self.T + 1) // self.unit != (self.T + 3) // self.unit:
             labels.append("length_field_straddles_write_unit")
         return labels
+
+
+# ----------------------------------------------------------------------------
+# Type 3
+# ----------------------------------------------------------------------------
+class T3World(World):
+    """Type 3 Tag with attribute block: Nbr, Nbw, Nmaxb, old length; data
+    blocks 1..Nmaxb and `extra` blocks behind them hold symbolic bytes.
+    emulated=True: the tag is nfc.tag.tt3.Type3TagEmulation itself."""
+    kind = "tt3"
+
+    def __init__(self, sx, nbr, nbw, nmaxb, oldlen=0, extra=2, emulated=False,
+                 ic_code=0xEE, writef=0x00, rwflag=0x01):
+        self.sx = sx
+        nblk = 1 + nmaxb + extra
+        mem = [None] * (nblk * 16)
+        attr = [0x10, nbr, nbw, nmaxb >> 8, nmaxb & 255, 0, 0, 0, 0, writef, rwflag,
+                (oldlen >> 16) & 255, (oldlen >> 8) & 255, oldlen & 255]
+        cs = sum(attr)
+        mem[0:16] = attr + [cs >> 8, cs & 255]
+        for i in range(16, len(mem)):
+            mem[i] = sx.byte("m[%d]" % i)
+        self.nmaxb = nmaxb
+        self.cap = nmaxb * 16
+        self.oldlen = oldlen
+        self.old = sx.mkbytes(mem[16:16 + oldlen], False)
+        self.area = set(range(0, (1 + nmaxb) * 16))
+        idm = [0x02, 0xFE, 1, 2, 3, 4, 5, 6]
+        pmm = [0x03, ic_code, 0x4B, 0x02, 0x4F, 0x49, 0x93, 0xFF]
+        if emulated:
+            self.kind = "tt3emu"
+            self.sim = tags.Tt3EmuSim(mem, idm, pmm)
+        else:
+            self.sim = tags.Tt3Sim(mem, idm, pmm)
+        self.clf = tags.SimClf(self.sim)
+        self.unit = 16
+
+    def target(self):
+        return tags.tt3_target(self.sim)
+
+    def geometry(self, n):
+        labels = []
+        if self.nmaxb > 255 and n > 255 * 16:
+            labels.append("t3_three_byte_block_numbers")
+        return labels
